@@ -38,7 +38,7 @@ def check(run):
     m2 = q.linform(ns, subs[0].site['rhs'], sub_ns) if subs else None
     run.check(ok and m2 == MEASURE, 'R9', 'dequeue', ns.norm, ns.loc(), 'the dequeue and the -= of m_queue_size are not one unconditional pair with measure payload+overhead', 'erase and -= (payload+overhead) in the same block')
     # the measured element is the one moved: p is the front packet
-    pk = [v for nn in ns.all_nodes() if nn['k'] == 'decl' for v in nn['vars'] if v.get('name') == 'p']
+    pk = [v for nn in ns.all_nodes() if nn['k'] == 'decl' for v in nn['vars'] if 'packet' in ns.types[v['t']] and v.get('init') is not None]
     run.check(len(pk) == 1 and 'm_queue.front().pkt' in q.render(ns, pk[0].get('init')), 'R9', 'dequeue-element', ns.norm, ns.loc(), 'the measured packet is not the dequeued front packet', 'measures the dequeued packet')
 
     run.clause('drop guard has exactly the stated form: ok_to_drop(p) && m_max_queue_size > 0 && m_queue_size + measure(p) > m_max_queue_size')
